@@ -70,7 +70,8 @@ Theorem ready_only_if_room :
   forall c x d t n y,
     step c x (LEjecting d t n) = Some y ->
     f y fRDY d = 1 /\ f y fTG d = t /\
-    (t <> PF -> isdev c t = true /\ Z.of_nat (length (others d (inc x t))) < cap c t - f x fC t).
+    (t <> PF -> isdev c t = true /\ Z.of_nat (length (others d (inc x t))) < cap c t - f x fC t
+                /\ (f x fKIND t = 1 -> f x fPH t < cap c t)).   (* switch-counted target: a seat physically free *)
 Proof. exact ready_only_if_room_l. Qed.
 Print Assumptions ready_only_if_room.
 
@@ -192,7 +193,7 @@ Print Assumptions count_change_needs_switch_change.
 
 (* entrance-switch counter: 0 <= count <= ball_capacity whatever rolls over the entrance switch *)
 Theorem entrance_count_in_range :
-  forall c evs, 0 <= e_cap c -> 0 <= e_last (e2 (erun c einit evs)) <= e_cap c.
+  forall c evs, 0 <= e_cap c -> 0 <= e_last (erun c einit evs) <= e_cap c.
 Proof. exact entrance_count_in_range_l. Qed.
 Print Assumptions entrance_count_in_range.
 
@@ -253,3 +254,88 @@ Theorem available_excess_only_from_unrestored_loss :
     isdev c (z x zILT) = true /\ f x fA (z x zILT) <= 0 /\ z y zXS = z x zXS + 1.
 Proof. exact available_excess_only_from_unrestored_loss_l. Qed.
 Print Assumptions available_excess_only_from_unrestored_loss.
+
+(* ---------------------------------------------------------------------------------------------- *)
+(* fourth pass *)
+
+(* third clause of the readiness check in the ledger: satisfiability / non-triviality of the new conjunct of
+   ready_only_if_room -- the same announcement is rejected when the (switch-counted) target is physically full
+   although its own count still shows room, accepted when nothing is known about its seats *)
+Example ejecting_towards_physically_full_target_rejected :
+  c04_run (cfgP, (dsP, pfP), lsP 1) = 4 /\ c04_run (cfgP, (dsP, pfP), lsP 0) = -1.
+Proof. exact full_target_rejected_l. Qed.
+Print Assumptions ejecting_towards_physically_full_target_rejected.
+
+(* ball search: a search pulse (phase 1) only at a device that is idle and counts no ball *)
+Theorem search_pulse_only_at_empty_idle_device :
+  forall c x d y, step c x (LSearchPulse d) = Some y -> y = x /\ f x fS d = IDLE /\ f x fC d = 0.
+Proof. exact search_pulse_guard_l. Qed.
+Print Assumptions search_pulse_only_at_empty_idle_device.
+
+(* giving up writes off exactly the balls believed loose: num_balls_known, playfield.balls and
+   playfield.available_balls all go down by playfield.balls, nothing else moves, the written-off balls become balls
+   MPF does not know (total - known grows by that number) *)
+Theorem give_up_writes_off_loose_balls :
+  forall c x dk db da y,
+    step c x (LGiveUp dk db da) = Some y ->
+    dk = z x zB /\ db = z x zB /\ da = z x zB /\ 0 <= z x zB /\
+    z y zB = 0 /\ z y zK = z x zK - z x zB /\ z y zPA = z x zPA - z x zB /\
+    z y zTOT - z y zK = (z x zTOT - z x zK) + z x zB /\ z y zLOOSE = z x zLOOSE /\ f y = f x.
+Proof. exact give_up_l. Qed.
+Print Assumptions give_up_writes_off_loose_balls.
+
+Theorem known_changes_only_by_new_ball_or_give_up :
+  forall c x l y,
+    step c x l = Some y -> z y zK <> z x zK -> l = LFoundNew \/ exists dk db da, l = LGiveUp dk db da.
+Proof. exact known_only_changes_l. Qed.
+Print Assumptions known_changes_only_by_new_ball_or_give_up.
+
+(* (ledger_step_invariant / ledger_conservation cover the new labels: the sums survive a give-up.)
+   Full statement for the code as it is in /repo WITHOUT fixes/C04-give-up-keeps-promised-balls.patch
+   (playfield.available_balls = 0 instead of -= lost_balls): "giving up preserves sum(available) = known" is FALSE
+   when a ball is promised to the playfield but not loose yet; the ball COUNTS stay right (last conjunct) *)
+Theorem give_up_zeroing_available_refuted :
+  exists c ds pf pre m,
+    NoDup (devs c) /\ reach c ds pf pre m /\ avail_inv c m /\ ~ avail_inv c (giveup_unfixed m) /\
+    sumf (f (giveup_unfixed m) fC) (devs c) + z (giveup_unfixed m) zB = z (giveup_unfixed m) zK.
+Proof. exact give_up_zeroing_available_refuted_l. Qed.
+Print Assumptions give_up_zeroing_available_refuted.
+
+Example give_up_run_accepted : accepts cfgG dsG pfG (preG ++ postG) = true.
+Proof. exact give_up_run_accepted_l. Qed.
+Print Assumptions give_up_run_accepted.
+
+(* counting layer: a device in which some switch has been active for the count delays is never reported empty (a lone
+   ball resting on the jam switch of an empty device is counted) *)
+Theorem stable_nonempty_counted :
+  forall c evs t,
+    let s := crun c (cinit c) evs in
+    ready_at c (sws s) <= t -> 1 <= nactive (sws s) -> 1 <= last (settle c s t).
+Proof. exact stable_nonempty_counted_l. Qed.
+Print Assumptions stable_nonempty_counted.
+
+Theorem lone_ball_counted :
+  forall c s now, last s = 0 -> nactive (sws s) = 1 -> last (recount c s now) = 1 /\ unrel (recount c s now) = false.
+Proof. exact lone_ball_counted_l. Qed.
+Print Assumptions lone_ball_counted.
+
+(* entrance counter with several entrances: balls that come in through pairwise different entrances (entrance
+   switches, the entrance event) are all counted up to the capacity, however close together and whatever the ignore
+   window; a hit is swallowed only by the window of its OWN entrance *)
+Theorem distinct_entrances_all_counted :
+  forall c evs,
+    NoDup (map ename evs) -> Z.of_nat (length evs) <= e_cap c -> e_last (erun c einit evs) = Z.of_nat (length evs).
+Proof. exact distinct_entrances_all_counted_l. Qed.
+Print Assumptions distinct_entrances_all_counted.
+
+Theorem entrance_hit_counted_outside_own_window :
+  forall c s t k,
+    in_window (e_win s) k t = false -> e_last s < e_cap c -> e_last (ehit c s t k) = e_last s + 1.
+Proof. exact ehit_counts. Qed.
+Print Assumptions entrance_hit_counted_outside_own_window.
+
+Example two_entrances_inside_window_example :
+  etrace (mke 3 3000) einit [EHit 0 0; EHit 500 1; EEvent 625; EHit 1000 0; EHit 3000 0]
+  = [[1; 1]; [2; 2]; [3; 3]; [3; 3]; [3; 3]].
+Proof. exact two_entrances_example_l. Qed.
+Print Assumptions two_entrances_inside_window_example.
